@@ -29,3 +29,8 @@ CLAIMED["C07"] = {
     "note": "Agenda clause only: termination of the fire_all entry points is NOT covered. BinaryHeap modelled as a priority queue (distinct creation instants => unique maximum). Trusted: rsym + library model, z3. Bounded in K.",
 }
 NA.pop("C07", None)
+CLAIMED["C10"] = {
+    "text": "Undo-frame clause only: bounded symbolic model checking of the real Facts store: every history of K operations (begin/commit/rollback/set/set of an object/set_nested/remove, symbolic keys and values) against a stack-of-snapshots reference; after every operation each key's presence, kind, value and nested field must equal the reference.",
+    "note": "The failed-proof half (BackwardEngine::query leaves the facts untouched) is NOT covered. Locks transparent (single-threaded). Trusted: rsym + library model, z3, reference model. Bounded in K.",
+}
+NA.pop("C10", None)
